@@ -254,9 +254,12 @@ func retypeProgram(r *Rng) []byte {
 func unionProgram(r *Rng) []byte {
 	var sb strings.Builder
 	sb.WriteString("class Table\n  def values\n    [1]\n  end\n  def keys\n    [:a]\n  end\n  def first\n    1\n  end\nend\n")
-	members := []string{"nil", "{a: 1}", "{}", "[1, 2]", "[\"a\", \"b\"]", "\"s\"", "1", "1.5", ":s", "opts[0]", "cfg[:k]", "Table.new", "unknown_call", "(1..3)", "true"}
-	methods := []string{"values", "keys", "merge({b: 2})", "first", "size", "to_s", "upcase", "each { |e| p e }", "map { |e| e }", "foo", "abs", "[0]", "[:a]", "fetch(:a)", "push(1)", "+ 1", "nil?", "length", "dup"}
-	n := r.Range(1, 4)
+	// (weighted: collections, unknown values, nil and user objects are what unions are made of)
+	members := []string{"nil", "nil", "{a: 1}", "{a: 1}", "{}", "{b: \"s\"}", "[1, 2]", "[\"a\", \"b\"]", "[]", "\"s\"", "1", "1.5", ":s",
+		"opts[0]", "opts[0]", "cfg[:k]", "unknown_call", "unknown_call", "Table.new", "Table.new", "(1..3)", "true"}
+	methods := []string{"values", "values", "keys", "keys", "merge({b: 2})", "first", "first", "size", "to_s", "upcase", "each { |e| p e }", "map { |e| e }",
+		"foo", "foo", "abs", "[0]", "[:a]", "fetch(:a)", "push(1)", "+ 1", "nil?", "length", "dup", "values.first", "keys.size"}
+	n := r.Range(2, 5)
 	for k := 0; k < n; k++ {
 		a, b := r.Pick(members), r.Pick(members)
 		switch r.Intn(4) {
@@ -269,7 +272,7 @@ func unionProgram(r *Rng) []byte {
 		default:
 			fmt.Fprintf(&sb, "u%d = %s || %s\n", k, a, b)
 		}
-		for j := 0; j < r.Range(1, 4); j++ {
+		for j := 0; j < r.Range(3, 8); j++ {
 			u := fmt.Sprintf("u%d", r.Intn(k+1))
 			switch r.Intn(8) {
 			case 0, 1:
